@@ -44,6 +44,7 @@ def build():
     c_sampler.install(R)
     c_sampler.install2(R)
     c_sampler.install_signatures(R)
+    c_sampler.install_sow_samples(R)
     c_concurrency.install(R)
     c_concurrency.install_readers(R)
     c_concurrency.install_progress(R)
